@@ -85,7 +85,8 @@ StepCall(rec, acc, k) ==
                            !.okReq = @ /\ (s2.grey \/ ((s2.err.t = "ErrRequired") <=> (co.errKind = "ErrRequired")))]
        [] c.op = "write" ->
             LET lines == WriteIni(s, SeqToSet(c.iniOpts)) IN
-            [acc EXCEPT !.drift = @ \/ lines # co.lines, !.writes = @ + 1]
+            \* (compared as text: a value may hold a line break of its own)
+            [acc EXCEPT !.drift = @ \/ JoinLines(lines) # co.text, !.writes = @ + 1]
        [] OTHER -> acc
 
 Acc0(rec) == [s |-> SInit(rec), ok14 |-> TRUE, okArgs |-> TRUE, okReq |-> TRUE, drift |-> FALSE, grey |-> FALSE, panics |-> 0, iniCalls |-> 0, errCalls |-> 0,
